@@ -68,45 +68,41 @@ func (x *r2Order) emits(fn *vmFn, n ast.Node) bool {
 	return found
 }
 
-// insertOf: statement is `self.insert(ctor(op, …), span)` → ctor call, opcode.
-func (x *r2Order) insertOf(fn *vmFn, s ast.Stmt) (ctor *ast.CallExpr, op *types.Const) {
+// insertOf: statement appends one instruction (insert primitive, forwarding wrapper or
+// single-instruction emission helper) → the emission (opcode, operands as seen at the call).
+func (x *r2Order) insertOf(fn *vmFn, s ast.Stmt) *r2Emission {
 	es, ok := s.(*ast.ExprStmt)
 	if !ok {
-		return nil, nil
+		return nil
 	}
 	call, ok := ast.Unparen(es.X).(*ast.CallExpr)
-	if !ok || CalleeOf(fn.info, call) != x.roles.insert || len(call.Args) == 0 {
-		return nil, nil
-	}
-	ctor, ok = ast.Unparen(call.Args[0]).(*ast.CallExpr)
 	if !ok {
-		return nil, nil
+		return nil
 	}
-	for _, a := range ctor.Args {
-		if types.Identical(fn.info.TypeOf(a), x.roles.opType) {
-			op = ConstOf(fn.info, a)
-		}
+	em, ok := r2EmitIdx(x.c).of(fn, call)
+	if !ok {
+		return nil
 	}
-	return ctor, op
+	return em
 }
 
 // single: the statement pushes exactly one operand.
 func (x *r2Order) single(fn *vmFn, s ast.Stmt) *r2Item {
-	if ctor, op := x.insertOf(fn, s); ctor != nil {
-		if op == nil {
+	if em := x.insertOf(fn, s); em != nil {
+		if em.op == nil {
 			return nil
 		}
-		if !x.pushOps[op] {
+		if !x.pushOps[em.op] {
 			return nil
 		}
-		for _, a := range ctor.Args {
+		for _, a := range em.args {
 			if vmIsNamed(fn.info.TypeOf(a), "homescript/runtime/value", "Value") {
 				return &r2Item{kind: r2ItLit, src: a, fn: fn, pos: s.Pos()}
 			}
 		}
 		if x.lenient {
 			// any instruction with a net effect of one push (variable / global read)
-			return &r2Item{kind: r2ItLit, src: ctor, fn: fn, pos: s.Pos()}
+			return &r2Item{kind: r2ItLit, src: em.call, fn: fn, pos: s.Pos()}
 		}
 		return nil
 	}
@@ -119,7 +115,7 @@ func (x *r2Order) single(fn *vmFn, s ast.Stmt) *r2Item {
 		return nil
 	}
 	g := CalleeOf(fn.info, call)
-	if g == nil || !x.roles.emitters[g] || g == x.roles.insert {
+	if g == nil || !x.roles.emitters[g] || r2EmitIdx(x.c).isForward(g) {
 		return nil
 	}
 	// child compilation of an expression node (pushes its value)
@@ -146,7 +142,7 @@ func (x *r2Order) classify(fn *vmFn, s ast.Stmt) (item *r2Item, skip bool) {
 	// extracted into a function): the loop, with the parameter replaced by the argument
 	if es, ok := s.(*ast.ExprStmt); ok {
 		if call, ok := ast.Unparen(es.X).(*ast.CallExpr); ok {
-			if g := CalleeOf(fn.info, call); g != nil && g != x.roles.insert && x.roles.byObj[g] != nil && x.depth < 2 {
+			if g := CalleeOf(fn.info, call); g != nil && !r2EmitIdx(x.c).isForward(g) && r2EmitIdx(x.c).singleOf(g) == nil && x.roles.byObj[g] != nil && x.depth < 2 {
 				gfn := x.roles.byObj[g]
 				var only *r2Item
 				var singles []*r2Item
@@ -673,6 +669,7 @@ func (x *r2Order) parseHostClause(fn *vmFn, hc *r2HostClause, argsP types.Object
 // ---- the rule
 
 func ruleR2OperandOrder(c *Ctx) []Obligation {
+	r2LoopCtx = c
 	roles := vmCompRoles(c)
 	x := &r2Order{c: c, roles: roles, pushOps: r3emPushOps(c)}
 	hostOp := vmConst(c, "homescript/compiler", "Opcode_HostCall")
@@ -694,11 +691,11 @@ func ruleR2OperandOrder(c *Ctx) []Obligation {
 			if !ok {
 				return true
 			}
-			ctor, op := x.insertOf(fn, s)
-			if ctor == nil || op != hostOp {
+			em := x.insertOf(fn, s)
+			if em == nil || em.op != hostOp {
 				return true
 			}
-			for _, a := range ctor.Args {
+			for _, a := range em.args {
 				if tv := fn.info.Types[a]; tv.Value != nil && tv.Value.Kind() == constant.String {
 					sites = append(sites, site{fn, s, constant.StringVal(tv.Value), a})
 					return true
@@ -1105,7 +1102,8 @@ func (x *r2Order) callObligations() []Obligation {
 	callOps := map[*types.Const]bool{opc("Opcode_Call_Imm"): true, opc("Opcode_Call_Val"): true, opc("Opcode_Spawn"): true}
 	setVar := opc("Opcode_SetVarImm")
 
-	// (A) argument push loops: the variadic segment found behind every call-instruction site
+	// (A) argument push loops: every loop of the compiler over a list of call arguments (the
+	// element type of the call node's argument list) that compiles one expression per element
 	type argLoop struct {
 		it  *r2Item
 		op  string
@@ -1114,65 +1112,78 @@ func (x *r2Order) callObligations() []Obligation {
 	var argLoops []argLoop
 	x.lenient = true
 	defer func() { x.lenient = false }()
-	for _, fn := range roles.fns {
-		// the call lowering: functions that receive the analysed call expression
-		takesCall := false
-		for _, fl := range fn.fd.Type.Params.List {
-			if nt := vmNamed(fn.info.TypeOf(fl.Type)); nt != nil && nt.Obj().Pkg() == roles.astPkg && strings.Contains(nt.Obj().Name(), "CallExpression") {
-				takesCall = true
+	_ = callOps
+	var argElem types.Type
+	{
+		sc := roles.astPkg.Scope()
+		names := sc.Names()
+		sort.Strings(names)
+		var find func(t types.Type, depth int)
+		find = func(t types.Type, depth int) {
+			if argElem != nil || depth > 2 {
+				return
 			}
-		}
-		if !takesCall {
-			continue
-		}
-		par := r2Parents(fn.fd.Body)
-		ast.Inspect(fn.fd.Body, func(n ast.Node) bool {
-			s, ok := n.(ast.Stmt)
-			if !ok {
-				return true
-			}
-			ctor, op := x.insertOf(fn, s)
-			if ctor == nil {
-				return true
-			}
-			isCall := op != nil && callOps[op]
-			if op == nil {
-				// opcode held in a variable: all constants assigned to it
-				for _, a := range ctor.Args {
-					if !types.Identical(fn.info.TypeOf(a), roles.opType) {
-						continue
-					}
-					ov := vmObjOf(fn.info, a)
-					ast.Inspect(fn.fd.Body, func(q ast.Node) bool {
-						if as, ok := q.(*ast.AssignStmt); ok {
-							for i, l := range as.Lhs {
-								if ov != nil && vmObjOf(fn.info, l) == ov && i < len(as.Rhs) {
-									if k := ConstOf(fn.info, as.Rhs[i]); k != nil && callOps[k] {
-										isCall = true
-									}
-								}
+			switch u := t.Underlying().(type) {
+			case *types.Slice:
+				if st, ok := u.Elem().Underlying().(*types.Struct); ok {
+					for i := 0; i < st.NumFields(); i++ {
+						if n := vmNamed(st.Field(i).Type()); n != nil && n.Obj().Pkg() == roles.astPkg {
+							if _, isIface := n.Underlying().(*types.Interface); isIface && strings.Contains(n.Obj().Name(), "Expression") {
+								argElem = u.Elem()
 							}
 						}
-						return true
-					})
+					}
+				}
+			case *types.Struct:
+				for i := 0; i < u.NumFields(); i++ {
+					find(u.Field(i).Type(), depth+1)
 				}
 			}
-			if !isCall {
-				return true
+		}
+		for _, n := range names {
+			tn, ok := sc.Lookup(n).(*types.TypeName)
+			if !ok || !strings.Contains(n, "CallExpression") {
+				continue
 			}
-			name := "?"
-			if op != nil {
-				name = op.Name()
+			if st, ok := tn.Type().Underlying().(*types.Struct); ok {
+				for i := 0; i < st.NumFields() && argElem == nil; i++ {
+					if _, isSlice := st.Field(i).Type().Underlying().(*types.Slice); isSlice {
+						continue // the base / type arguments are not the call arguments' wrapper
+					}
+					find(st.Field(i).Type(), 1)
+				}
 			}
-			for _, it := range x.scanBack(fn, par, s) {
-				if it.kind == r2ItSeg {
-					argLoops = append(argLoops, argLoop{it, name, s.Pos()})
+		}
+	}
+	if argElem != nil {
+		for _, fn := range roles.fns {
+			ast.Inspect(fn.fd.Body, func(n ast.Node) bool {
+				s, ok := n.(ast.Stmt)
+				if !ok {
 					return true
 				}
-			}
-			argLoops = append(argLoops, argLoop{nil, name, s.Pos()})
-			return true
-		})
+				switch s.(type) {
+				case *ast.ForStmt, *ast.RangeStmt:
+				default:
+					return true
+				}
+				l := r2LoopOf(fn.info, s)
+				if l == nil || l.coll == nil {
+					return true
+				}
+				sl, ok := fn.info.TypeOf(l.coll).Underlying().(*types.Slice)
+				if !ok || !types.Identical(sl.Elem(), argElem) {
+					return true
+				}
+				if !x.fromCallNode(fn, l.coll, 0) {
+					return true // arguments of another construct (trigger statement, …)
+				}
+				if it, _ := x.classify(fn, s); it != nil && it.kind == r2ItSeg {
+					argLoops = append(argLoops, argLoop{it, "", s.Pos()})
+				}
+				return true
+			})
+		}
 	}
 	pushDir := 0
 	var pushDesc []string
@@ -1195,12 +1206,12 @@ func (x *r2Order) callObligations() []Obligation {
 	obA := Obligation{Key: "call|every call / spawn lowering pushes the arguments by one loop direction", Nontrivial: true}
 	switch {
 	case len(argLoops) == 0:
-		obA.Status, obA.Detail = Undecided, "no site emits Call_Imm / Call_Val / Spawn"
+		obA.Status, obA.Detail = Undecided, "no loop of the compiler over a list of call arguments compiles one expression per element"
 	case !consistent || pushDir == 0:
 		obA.Status, obA.Detail = Undecided, strings.Join(pushDesc, "; ")
 	default:
 		obA.Pos = c.Pos(pushLoop.pos)
-		obA.Status, obA.Detail = Discharged, fmt.Sprintf("%d call-instruction site(s): %s", len(argLoops), strings.Join(pushDesc, "; "))
+		obA.Status, obA.Detail = Discharged, fmt.Sprintf("%d argument loop(s): %s", len(argLoops), strings.Join(pushDesc, "; "))
 	}
 	obs = append(obs, obA)
 	if obA.Status != Discharged {
@@ -1237,9 +1248,9 @@ func (x *r2Order) callObligations() []Obligation {
 				// body pops one operand per (non-skipped) element into a variable slot
 				pops, others := 0, 0
 				for _, b := range l.body.List {
-					if ctor, op := x.insertOf(fn, b); op == setVar {
+					if em := x.insertOf(fn, b); em != nil && em.op == setVar {
 						pops++
-					} else if ctor != nil || (x.emits(fn, b) && !r2OnlySkips(b)) {
+					} else if em != nil || (x.emits(fn, b) && !r2OnlySkips(b)) {
 						others++
 					}
 				}
@@ -1271,6 +1282,18 @@ func (x *r2Order) callObligations() []Obligation {
 	// (C)+(D) VM side: the loops of the Call_Val and Spawn clauses that pop the arguments
 	r := vmRoles(c)
 	info := r.dispatch.info
+	// pop-like: the pop primitive, or a helper built from the primitives that nets one pop
+	stackSumm := r2NewFieldSumm(c, r.fns, r.stack.field, r.stack)
+	isPop := func(g *types.Func) bool {
+		if g == nil {
+			return false
+		}
+		if _, ok := r.stack.pop[g]; ok {
+			return true
+		}
+		d, unknown := stackSumm.call(g)
+		return !unknown && d == -1 && stackSumm.writes[g]
+	}
 	for _, spec := range []struct {
 		op   *types.Const
 		key  string
@@ -1296,102 +1319,137 @@ func (x *r2Order) callObligations() []Obligation {
 			end    token.Pos
 		}
 		var loops []gl
-		ast.Inspect(&ast.BlockStmt{List: cc.Body}, func(n ast.Node) bool {
-			s, ok := n.(ast.Stmt)
-			if !ok {
-				return true
-			}
-			var body *ast.BlockStmt
-			switch y := s.(type) {
-			case *ast.ForStmt:
-				body = y.Body
-			case *ast.RangeStmt:
-				body = y.Body
-			default:
-				return true
-			}
-			nPop := 0
-			var popObjs []types.Object
-			ast.Inspect(body, func(m ast.Node) bool {
-				if call, ok := m.(*ast.CallExpr); ok {
-					if _, isPop := r.stack.pop[CalleeOf(info, call)]; isPop {
-						nPop++
-					}
-				}
-				if as, ok := m.(*ast.AssignStmt); ok && len(as.Lhs) == 1 && len(as.Rhs) == 1 {
-					hasPop := false
-					ast.Inspect(as.Rhs[0], func(q ast.Node) bool {
-						if call, ok := q.(*ast.CallExpr); ok {
-							if _, isPop := r.stack.pop[CalleeOf(info, call)]; isPop {
-								hasPop = true
-							}
-						}
+		// the clause and the handler functions it delegates to
+		regions := []*ast.BlockStmt{{List: cc.Body}}
+		{
+			seenFn := map[*types.Func]bool{}
+			var add func(b *ast.BlockStmt, depth int)
+			add = func(b *ast.BlockStmt, depth int) {
+				ast.Inspect(b, func(n ast.Node) bool {
+					call, ok := n.(*ast.CallExpr)
+					if !ok || depth > 2 {
 						return true
-					})
-					if hasPop {
-						if o := vmObjOf(info, as.Lhs[0]); o != nil {
-							popObjs = append(popObjs, o)
-						}
 					}
-				}
-				return true
-			})
-			if nPop != 1 {
-				return true
-			}
-			// variables derived from the popped operand (`cloned := (*popped).Clone()`)
-			for round := 0; round < 3; round++ {
-				ast.Inspect(body, func(m ast.Node) bool {
-					if as, ok := m.(*ast.AssignStmt); ok && len(as.Lhs) == 1 && len(as.Rhs) == 1 {
-						for _, o := range popObjs {
-							if vmMentionsObj(info, as.Rhs[0], o) {
-								if lo := vmObjOf(info, as.Lhs[0]); lo != nil && lo != o {
-									dup := false
-									for _, q := range popObjs {
-										if q == lo {
-											dup = true
-										}
-									}
-									// the gathering slice itself is not a derived operand
-									if call, isCall := ast.Unparen(as.Rhs[0]).(*ast.CallExpr); isCall && r2IsBuiltin(info, call, "append") {
-										dup = true
-									}
-									if !dup {
-										popObjs = append(popObjs, lo)
-									}
-								}
-								break
-							}
+					g := CalleeOf(info, call)
+					if g == nil || seenFn[g] || isPop(g) {
+						return true
+					}
+					if _, isPush := r.stack.push[g]; isPush {
+						return true
+					}
+					for _, h := range r.fns {
+						if ho, _ := h.info.Defs[h.fd.Name].(*types.Func); ho == g && h.fd.Recv != nil && recvTypeName(h.fd.Recv.List[0].Type) == "Core" {
+							seenFn[g] = true
+							regions = append(regions, h.fd.Body)
+							add(h.fd.Body, depth+1)
 						}
 					}
 					return true
 				})
 			}
-			g, desc, target := r2GatherDir(info, body, func(e ast.Expr) bool {
-				f := false
-				ast.Inspect(e, func(q ast.Node) bool {
-					if call, ok := q.(*ast.CallExpr); ok {
-						if _, isPop := r.stack.pop[CalleeOf(info, call)]; isPop {
-							f = true
+			add(regions[0], 0)
+		}
+		var loopRegion *ast.BlockStmt
+		for _, region := range regions {
+			region := region
+			ast.Inspect(region, func(n ast.Node) bool {
+				s, ok := n.(ast.Stmt)
+				if !ok {
+					return true
+				}
+				var body *ast.BlockStmt
+				switch y := s.(type) {
+				case *ast.ForStmt:
+					body = y.Body
+				case *ast.RangeStmt:
+					body = y.Body
+				default:
+					return true
+				}
+				nPop := 0
+				var popObjs []types.Object
+				ast.Inspect(body, func(m ast.Node) bool {
+					if call, ok := m.(*ast.CallExpr); ok {
+						if isPop(CalleeOf(info, call)) {
+							nPop++
 						}
 					}
-					if id, ok := q.(*ast.Ident); ok {
-						for _, o := range popObjs {
-							if info.Uses[id] == o {
-								f = true
+					if as, ok := m.(*ast.AssignStmt); ok && len(as.Lhs) == 1 && len(as.Rhs) == 1 {
+						hasPop := false
+						ast.Inspect(as.Rhs[0], func(q ast.Node) bool {
+							if call, ok := q.(*ast.CallExpr); ok {
+								if isPop(CalleeOf(info, call)) {
+									hasPop = true
+								}
+							}
+							return true
+						})
+						if hasPop {
+							if o := vmObjOf(info, as.Lhs[0]); o != nil {
+								popObjs = append(popObjs, o)
 							}
 						}
 					}
-					return !f
+					return true
 				})
-				return f
-			})
-			if target == nil {
+				if nPop != 1 {
+					return true
+				}
+				// variables derived from the popped operand (`cloned := (*popped).Clone()`)
+				for round := 0; round < 3; round++ {
+					ast.Inspect(body, func(m ast.Node) bool {
+						if as, ok := m.(*ast.AssignStmt); ok && len(as.Lhs) == 1 && len(as.Rhs) == 1 {
+							for _, o := range popObjs {
+								if vmMentionsObj(info, as.Rhs[0], o) {
+									if lo := vmObjOf(info, as.Lhs[0]); lo != nil && lo != o {
+										dup := false
+										for _, q := range popObjs {
+											if q == lo {
+												dup = true
+											}
+										}
+										// the gathering slice itself is not a derived operand
+										if call, isCall := ast.Unparen(as.Rhs[0]).(*ast.CallExpr); isCall && r2IsBuiltin(info, call, "append") {
+											dup = true
+										}
+										if !dup {
+											popObjs = append(popObjs, lo)
+										}
+									}
+									break
+								}
+							}
+						}
+						return true
+					})
+				}
+				g, desc, target := r2GatherDir(info, body, func(e ast.Expr) bool {
+					f := false
+					ast.Inspect(e, func(q ast.Node) bool {
+						if call, ok := q.(*ast.CallExpr); ok {
+							if isPop(CalleeOf(info, call)) {
+								f = true
+							}
+						}
+						if id, ok := q.(*ast.Ident); ok {
+							for _, o := range popObjs {
+								if info.Uses[id] == o {
+									f = true
+								}
+							}
+						}
+						return !f
+					})
+					return f
+				})
+				if target == nil {
+					return true
+				}
+				loops = append(loops, gl{g, desc, target, s.Pos(), s.End()})
+				loopRegion = region
 				return true
-			}
-			loops = append(loops, gl{g, desc, target, s.Pos(), s.End()})
-			return true
-		})
+			})
+		}
 		if len(loops) != 1 {
 			ob.Status, ob.Detail = Undecided, fmt.Sprintf("%d loops pop one operand per iteration and gather it into a slice (expected 1)", len(loops))
 			obs = append(obs, ob)
@@ -1400,7 +1458,7 @@ func (x *r2Order) callObligations() []Obligation {
 		l := loops[0]
 		// the gathered slice must reach its consumer as gathered: no later write / reordering
 		var later []string
-		ast.Inspect(&ast.BlockStmt{List: cc.Body}, func(n ast.Node) bool {
+		ast.Inspect(loopRegion, func(n ast.Node) bool {
 			switch y := n.(type) {
 			case *ast.AssignStmt:
 				if y.Pos() <= l.end {
@@ -1526,4 +1584,58 @@ func r2Subst(e ast.Expr, root *ast.Ident, by ast.Expr) ast.Expr {
 		return &ast.SelectorExpr{X: r2Subst(x.X, root, by), Sel: x.Sel}
 	}
 	return e
+}
+
+// fromCallNode: the expression is taken from an analysed CALL expression node — it mentions a
+// value of that type, or its root is a local defined from such an expression, or a parameter
+// that every caller binds to one.
+func (x *r2Order) fromCallNode(fn *vmFn, e ast.Expr, depth int) bool {
+	if e == nil || depth > 3 {
+		return false
+	}
+	info := fn.info
+	found := false
+	ast.Inspect(e, func(n ast.Node) bool {
+		if ex, ok := n.(ast.Expr); ok {
+			if nt := vmNamed(info.TypeOf(ex)); nt != nil && nt.Obj().Pkg() == x.roles.astPkg && strings.Contains(nt.Obj().Name(), "CallExpression") {
+				found = true
+			}
+		}
+		return !found
+	})
+	if found {
+		return true
+	}
+	root, ok := vmRootOf(e).(*ast.Ident)
+	if !ok {
+		return false
+	}
+	o := vmObjOf(info, root)
+	if o == nil {
+		return false
+	}
+	// parameter: what the callers pass
+	for i, po := range vmParamObjs(fn) {
+		if po != o {
+			continue
+		}
+		obj, _ := info.Defs[fn.fd.Name].(*types.Func)
+		any, all := false, true
+		for _, g := range x.roles.fns {
+			ast.Inspect(g.fd.Body, func(n ast.Node) bool {
+				if call, ok := n.(*ast.CallExpr); ok && obj != nil && CalleeOf(g.info, call) == obj && i < len(call.Args) {
+					any = true
+					if !x.fromCallNode(g, call.Args[i], depth+1) {
+						all = false
+					}
+				}
+				return true
+			})
+		}
+		return any && all
+	}
+	if def := vmSingleDef(fn, o); def != nil {
+		return x.fromCallNode(fn, def, depth+1)
+	}
+	return false
 }
